@@ -115,4 +115,11 @@ theorem src_seed_unconditional :
 /-- source obligation: POP hands its `solver_kwargs` to the PCA step -/
 theorem src_pop_forwards_solver_kwargs : Gen.popPCA.lookup "solver_kwargs" = some "solver_kwargs" := by decide
 
+/-- source obligations: the exact branch of both wrappers decomposes with `np.linalg.svd` itself (not with a squared-matrix
+shortcut), each non-exact branch with its own solver, and the dask branch keeps four power iterations by default -/
+theorem src_solver_functions :
+    Gen.decomposerSolverFunctions = ["np.linalg.svd", "randomized_svd", "complex_svd", "dask_svd"] ∧
+    Gen.svdSolverFunctions = ["np.linalg.svd", "randomized_svd", "complex_svd", "dask_svd"] ∧
+    Gen.decomposerDaskDefaults.contains "solver_kwargs.setdefault('n_power_iter', 4)" = true := by decide
+
 end C15
